@@ -144,3 +144,37 @@ def credit_leak_after_take(facts, b, tr, tc, pushes):
                     continue
             st.append(y)
     return None
+
+
+def channel_capacity_roles(facts, crate):
+    """[(body, bb, term, element type, roles of the capacity argument)] for every bounded mpsc::channel construction."""
+    from an import Inter
+    import rules_c03
+    it = Inter(facts)
+    out = []
+    for b in crate.bodies:
+        for bi, t in b.calls():
+            c = callee(t)
+            if c and c["name"] == "channel" and "mpsc" in c["def"] and t["args"]:
+                tr = it.tracer(b)
+                roles = sorted(rules_c03.top_roles(it.expand(b, tr.operand(t["args"][0]))))
+                el = c["path"].split("channel::<", 1)[-1].rstrip(">") if "channel::<" in c["path"] else "?"
+                out.append((b, bi, t, el, roles))
+    return out
+
+
+def check_capacity_role(facts, rep, crate, rid, elem_substr, want_role, what):
+    k = 0
+    for b, bi, t, el, roles in channel_capacity_roles(facts, crate):
+        if elem_substr not in el:
+            continue
+        k += 1
+        rep.analysed(b)
+        where = "%s (%s)" % (loc_str(t["loc"]), b.path)
+        if roles == [want_role]:
+            rep.ok(rid, "capacity/%s" % what, where, "capacity <- %s" % want_role)
+        else:
+            rep.bad(rid, "capacity/%s" % what, where,
+                    "the %s is sized from %s instead of %s: the configured size has no effect and items are dropped / senders "
+                    "blocked at a different fill level" % (what, roles, want_role))
+    rep.floor(rid, "%s constructions" % what, k, 1)
